@@ -190,6 +190,9 @@ class NativeBackend(BackendBase):
     def set_field(self, obj, field, value):
         obj.__dict__[field] = value
 
+    def set_attr(self, obj, name, value):
+        setattr(obj, name, value)
+
     def get_field(self, obj, field):
         return obj.__dict__[field]
 
